@@ -23,7 +23,11 @@ RULE = ("real PassSequences: oval/round/box/diamond-square chains of 2-5 two-rol
         "model's edge cases) with transports in between, random groove sizes / gaps / roll radii / incoming diameters, "
         "forward and backward, speeds 0.3-60, spread model none | fixed filling | draught power law | the same with a "
         "velocity-dependent factor, registered on a throw-away RollPass/OutProfile subclass or on the core class and "
-        "removed in finally; default and tiny iteration budgets. non-trivial = at least one out area differs from the "
+        "removed in finally; default and tiny iteration budgets. About a quarter each: user values for the float hooks of pass "
+        "and roll that have no implementation in the tree (names tested by anchored implementations first); neutral plane given as "
+        "angle or as point; a history of the sequence object (earlier calculation same/other direction, velocities given at "
+        "construction or assigned, plain solve, attributes read before, calculation on another sequence, same in-profile object); "
+        "re-simulation of the mill at the resulting roll speeds. non-trivial = at least one out area differs from the "
         "usable area by > 1e-6 relative; distinct by the rounded case description.")
 ASSUMPTIONS = [
     "what Unit.solve does to the cross-sections is a parameter of the model (S: call number, velocities -> out areas); the "
@@ -31,6 +35,12 @@ ASSUMPTIONS = [
     "IEEE rounding: theorems over the reals; per-iteration velocities of model (Float) and code are compared with rtol 1e-12",
     "in_profile.velocity is evaluated one solve-iteration before the final out cross-section: in/out flux agree only within "
     "the pass's iteration precision (checked numerically with 0.01 + 3*iteration_precision*|v|, theorem is about the formula)",
+    "interpretation (oracle clause 5): the pass velocities are the ones the rolls drive the passes at, so the same mill set to the "
+    "resulting rotational frequencies (no pass velocity given, one plain solve) must run every pass at its calculated velocity "
+    "(rtol 1e-9: velocity -> frequency -> velocity), with equal flux within 0.01 + 3*iteration_precision*|v| and, backward, the last "
+    "pass at the final speed (rtol 1e-9)",
+    "the model has no input for the state of the sequence object before the call: independence of that state is checked by the "
+    "correspondence on non-fresh sequences (the model fed only the arguments must reproduce every velocity vector)",
 ]
 TRUSTED_EXTRA = ["AST pattern matcher for the two velocity loops (driver/translate/c19_velo.py); its output is pinned by the "
                  "shape obligations `backward_shape_as_modelled` / `forward_shape_as_modelled` and exercised by the per-iteration correspondence"]
@@ -80,8 +90,33 @@ class Built:
     pass
 
 
-def build(desc):
-    """-> Built(seq, in_profile, cleanup)  from a case description"""
+def _roll_kwargs(desc, k, roll_speeds):
+    kw = {}
+    neutral = desc.get("neutral")
+    if neutral:
+        kw["neutral_angle" if neutral["kind"] == "angle" else "neutral_point"] = neutral["values"][k]
+    ex = desc.get("roll_extras")
+    if ex:
+        kw.update(ex[k])
+    if roll_speeds is not None:
+        kw["rotational_frequency"] = roll_speeds[k]
+    return kw
+
+
+def _pass_kwargs(desc, k, roll_speeds):
+    kw = {}
+    ex = desc.get("pass_extras")
+    if ex:
+        kw.update(ex[k])
+    cv = desc.get("construct_velocities")
+    if cv and roll_speeds is None:           # the mill (roll_speeds given) is driven by its rolls only
+        kw["velocity"] = cv[k]
+    return kw
+
+
+def build(desc, roll_speeds=None):
+    """-> Built(seq, in_profile, cleanup)  from a case description.
+    `roll_speeds` (rotational frequencies, one per pass): build the same mill driven by its rolls instead."""
     from pyroll.core import Profile, Roll, RollPass, Transport, PassSequence
     b = Built()
     sp = desc["spread"]
@@ -101,7 +136,9 @@ def build(desc):
         units = []
         passes = desc["passes"]
         for k, p in enumerate(passes):
-            units.append(RP(label=f"P{k}", roll=Roll(groove=_groove(p["groove"]), nominal_radius=p["radius"]), gap=p["gap"]))
+            units.append(RP(label=f"P{k}", roll=Roll(groove=_groove(p["groove"]), nominal_radius=p["radius"],
+                                                    **_roll_kwargs(desc, k, roll_speeds)),
+                            gap=p["gap"], **_pass_kwargs(desc, k, roll_speeds)))
             if k < len(passes) - 1:
                 units.append(Transport(label=f"T{k}", length=desc["transports"][k]))
         if desc.get("lead_transport"):
@@ -121,8 +158,10 @@ def build(desc):
             kw["max_iteration_count"] = desc["budget"]
         b.seq = Seq(units, **kw)
         b.rec = rec
-        b.in_profile = Profile.round(diameter=desc["in_diameter"], temperature=1200 + 273.15, material=["C45", "steel"],
-                                     flow_stress=100e6, density=7.5e3, specific_heat_capacity=690)
+        b.make_in_profile = lambda: Profile.round(diameter=desc["in_diameter"], temperature=1200 + 273.15,
+                                                  material=["C45", "steel"], flow_stress=100e6, density=7.5e3,
+                                                  specific_heat_capacity=690)
+        b.in_profile = b.make_in_profile()
     except BaseException:
         for c in cleanup:
             c()
@@ -130,7 +169,7 @@ def build(desc):
     return b
 
 
-def gen_desc(rng, force=None):
+def gen_desc(rng, force=None, pool=None):
     force = force or {}
     fam = force.get("family") or rng.choice(["oval-round", "oval-round", "oval-round", "box", "diamond-square"])
     n = force.get("n") or rng.choice([2, 2, 3, 3, 4, 5])
@@ -185,7 +224,126 @@ def gen_desc(rng, force=None):
     # (no transport in front of the first pass: Transport.velocity of a first unit raises IndexError - finding F13 of C16)
     if rng.random() < 0.15:
         desc["tail_transport"] = U(0.5, 2)
+    if not force.get("plain"):
+        decorate(rng, desc, pool)
     return desc
+
+
+# ---------------------------------------------------------------------------------------------------------
+# what the property quantifies over implicitly: the state of the objects handed to the calculation
+# ---------------------------------------------------------------------------------------------------------
+# "for every sequence": a PassSequence is a mutable object.  The generators below reach
+#   * passes / rolls carrying user-provided values for hooks the code under test has NO implementation of (their only
+#     source is the user or a plugin model), with priority for attribute names whose presence an anchored hook
+#     implementation tests (read from the current source by the translator),
+#   * rolls whose neutral plane is given - as angle or as point (the angle is then only derivable through its hook),
+#   * sequences that are not fresh: passes constructed with / assigned explicit velocities, a plain solve, an earlier
+#     velocity calculation in the same or the other direction and with another speed, attributes read (= cached) before
+#     the call, the same or a new incoming profile object; a calculation on another sequence object just before.
+
+PRE_READS = ["roll.neutral_angle", "roll.neutral_point", "roll.working_radius", "roll.working_velocity",
+             "roll.rotational_frequency", "velocity", "usable_cross_section.area", "roll.exit_angle", "volume_flux"]
+
+
+def extras_pool(hooks=None):
+    """{"pass": [...], "roll": [...]}: float-typed hooks of the roll pass / its roll without any implementation in the tree
+    under test; names tested in guards of the anchored hook implementations come first"""
+    from pyroll.core import RollPass
+    pool = {}
+    for where, cls in (("pass", RollPass), ("roll", RollPass.Roll)):
+        names = []
+        for n in sorted(cls.__hooks__):
+            h = getattr(cls, n)
+            try:
+                t = h.type
+            except TypeError:
+                continue
+            if t is float and not h.functions:
+                names.append(n)
+        pool[where] = names
+    tested = {"pass": [], "roll": []}
+
+    def walk(g, host):
+        if not isinstance(g, tuple):
+            return
+        if g[0] in ("hasValue", "hasSet", "hasSetOrCached", "hasCached") and len(g) == 3:
+            last = g[1].split(".")[-1] if g[1] else ""
+            where = "pass" if last in ("roll_pass", "unit") else "roll" if last == "roll" else \
+                ("roll" if host.endswith(".Roll") else None if "Profile" in host else "pass") if last == "" else None
+            if where and g[2] not in tested[where]:
+                tested[where].append(g[2])
+        for x in g[1:]:
+            walk(x, host)
+    for impl in (hooks or {}).values():
+        for alt in impl.alts:
+            walk(alt[0], impl.host or "")
+    for where in ("pass", "roll"):
+        first = [n for n in tested[where] if n in pool[where]]
+        pool[where] = first + [n for n in pool[where] if n not in first]
+        pool[where + "_tested"] = first
+    return pool
+
+
+def _extra_value(rng):
+    return math.exp(rng.uniform(math.log(0.02), math.log(0.4)))
+
+
+def decorate(rng, desc, pool=None):
+    """add (with moderate probability each) user-provided extras, a neutral plane, a history"""
+    n = len(desc["passes"])
+    U = rng.uniform
+    if n == 0:
+        return
+    if pool and rng.random() < 0.25:
+        for where in ("pass", "roll"):
+            names = pool.get(where) or []
+            if not names or (where == "roll" and rng.random() < 0.5):
+                continue
+            ex = []
+            for k in range(n):
+                d = {}
+                if rng.random() < 0.7:
+                    chosen = list(pool.get(where + "_tested") or [])[:2] if rng.random() < 0.7 else []
+                    chosen += rng.sample(names, min(len(names), rng.choice([1, 1, 2])))
+                    for nm in chosen:
+                        d[nm] = _extra_value(rng)
+                ex.append(d)
+            if any(ex):
+                desc[where + "_extras"] = ex
+    if rng.random() < 0.25:
+        if rng.random() < 0.5:
+            desc["neutral"] = {"kind": "angle", "values": [-U(0.05, 0.4) for _ in range(n)]}
+        else:
+            desc["neutral"] = {"kind": "point", "values": [-U(0.05, 0.35) * p["radius"] for p in desc["passes"]]}
+    if rng.random() < 0.25:
+        pre = []
+        kind = rng.choice(["calc-same", "calc-same", "calc-other", "construct", "construct+solve", "assign", "assign+solve", "read",
+                           "read", "other"])
+        speeds = lambda: [math.exp(U(math.log(0.3), math.log(20))) for _ in range(n)]
+        if kind.startswith("calc"):
+            other = {"b": "f", "f": "b"}[desc["mode"]]
+            pre.append({"op": "calc", "mode": desc["mode"] if kind == "calc-same" else other,
+                        "speed": desc["speed"] * rng.choice([U(0.3, 0.8), U(1.3, 3)]), "final_area_factor": 1.0})
+        elif kind.startswith("construct"):
+            desc["construct_velocities"] = speeds()
+            if kind.endswith("solve"):
+                pre.append({"op": "solve"})
+        elif kind.startswith("assign"):
+            pre.append({"op": "velocities", "values": speeds()})
+            if kind.endswith("solve"):
+                pre.append({"op": "solve"})
+        elif kind == "other":
+            pre.append({"op": "other", "mode": rng.choice("bf"), "speed": math.exp(U(math.log(0.3), math.log(60)))})
+        else:
+            pre.append({"op": "read", "what": rng.sample(PRE_READS, rng.choice([1, 2, 3]))})
+        if pre and rng.random() < 0.3 and pre[-1]["op"] != "read":
+            pre.append({"op": "read", "what": rng.sample(PRE_READS, rng.choice([1, 2]))})
+        if pre:
+            desc["pre"] = pre
+        if rng.random() < 0.5:
+            desc["reuse_in_profile"] = True
+    if n >= 2 and (desc.get("neutral") or rng.random() < 0.1):
+        desc["mill"] = True
 
 
 def _test_seq(mode):
@@ -198,8 +356,9 @@ def _test_seq(mode):
         "mode": mode, "speed": 1.5, "final_area_factor": 1.0, "budget": None}
 
 
-def corpus():
+def corpus(pool=None):
     out = [_test_seq("b"), _test_seq("f")]
+    out += history_corpus(pool)
     for mode in "bf":
         for budget, sk, speed in ((2, "fill", 5.0), (3, "fill", 5.0), (2, "vfill", 50.0), (3, "vdraught", 40.0), (None, "none", 0.5),
                                   (None, "vdraught", 20.0)):
@@ -228,6 +387,45 @@ def corpus():
     return out
 
 
+def history_corpus(pool=None):
+    """the test-suite sequence (two- and three-pass) as a NON-fresh object / with user-provided data: one case per kind of
+    history, neutral-plane description and extra attribute (see `decorate`)"""
+    out = []
+
+    def seq(mode, n=3, **kw):
+        d = _test_seq(mode)
+        d["passes"] = d["passes"][:n]
+        d["transports"] = d["transports"][:n - 1]
+        d.update(kw)
+        return d
+    # an earlier calculation with another speed, same and other direction; the same in-profile object or a new one
+    out.append(seq("b", 2, speed=2.5, pre=[{"op": "calc", "mode": "b", "speed": 1.5, "final_area_factor": 1.0}]))
+    out.append(seq("b", 2, speed=4.0, pre=[{"op": "calc", "mode": "f", "speed": 1.0, "final_area_factor": 1.0}], reuse_in_profile=True))
+    out.append(seq("f", 2, speed=0.8, pre=[{"op": "other", "mode": "b", "speed": 7.0}]))
+    # explicit pass velocities: given at construction / assigned, with and without a plain solve in between
+    out.append(seq("b", 2, speed=3.0, construct_velocities=[1.0, 1.0], pre=[{"op": "solve"}]))
+    out.append(seq("b", 2, speed=0.7, construct_velocities=[2.0, 3.0]))
+    out.append(seq("f", 2, speed=2.0, pre=[{"op": "velocities", "values": [4.0, 9.0]}, {"op": "solve"}], reuse_in_profile=True))
+    # neutral plane given as angle / as point, nothing read before / the angle read before; the mill is set to the result
+    out.append(seq("b", 2, speed=2.0, neutral={"kind": "angle", "values": [-0.10, -0.30]}, mill=True))
+    out.append(seq("b", 3, speed=2.0, neutral={"kind": "point", "values": [-15e-3, -30e-3, -45e-3]}, mill=True))
+    out.append(seq("f", 2, speed=1.0, neutral={"kind": "point", "values": [-40e-3, -12e-3]}, mill=True))
+    out.append(seq("f", 2, speed=1.0, neutral={"kind": "point", "values": [-40e-3, -12e-3]}, mill=True,
+                   pre=[{"op": "read", "what": ["roll.neutral_angle"]}]))
+    out.append(seq("b", 2, speed=1.0, pre=[{"op": "read", "what": ["roll.working_velocity", "velocity", "volume_flux"]}]))
+    # every float hook of pass and roll that has no implementation in the tree gets a user value (different per pass;
+    # forward: on the first pass only)
+    if pool:
+        for mode in "bf":
+            d = seq(mode, 2, speed=1.0 if mode == "f" else 2.0, mill=True)
+            for where in ("pass", "roll"):
+                if pool.get(where):
+                    d[where + "_extras"] = [{nm: round(0.03 + 0.05 * k + 0.01 * j, 4) for j, nm in enumerate(pool[where])}
+                                            if k == 0 or mode == "b" else {} for k in range(2)]
+            out.append(d)
+    return out
+
+
 # ---------------------------------------------------------------------------------------------------------
 # running one case on the real implementation
 # ---------------------------------------------------------------------------------------------------------
@@ -246,6 +444,60 @@ def _from_pyroll(ex):
     return False
 
 
+def _read_path(obj, path):
+    """read an attribute the way user code does before handing the object over (a value that cannot be provided is no error)"""
+    try:
+        for part in path.split("."):
+            obj = getattr(obj, part)
+        return obj
+    except AttributeError:
+        return None
+
+
+def _call(seq, in_profile, mode, speed, final_area_factor, usable):
+    if mode == "b":
+        aux = (usable[-1] if usable else 4e-4) * final_area_factor
+        seq.solve_velocities_backward(in_profile, speed, aux)
+    else:
+        aux = float(in_profile.cross_section.area)
+        seq.solve_velocities_forward(in_profile, speed)
+    return aux
+
+
+def run_history(b, desc, o):
+    """what happened to the sequence object before the call under test (desc["pre"])"""
+    seq = b.seq
+    for op in desc.get("pre") or []:
+        prof = b.in_profile if desc.get("reuse_in_profile") else b.make_in_profile()
+        if op["op"] == "velocities":
+            for rp, v in zip(seq.roll_passes, op["values"]):
+                rp.velocity = v
+        elif op["op"] == "solve":
+            if not all(rp.has_set("velocity") for rp in seq.roll_passes):
+                for rp in seq.roll_passes:
+                    rp.velocity = 1.0
+            seq.solve(prof)
+        elif op["op"] == "calc":
+            _call(seq, prof, op["mode"], op["speed"], op["final_area_factor"], o.usable)
+        elif op["op"] == "other":
+            # a calculation on ANOTHER sequence object in the same process (whatever the code keeps outside the objects)
+            d2 = _test_seq(op["mode"])
+            d2["passes"], d2["transports"], d2["speed"] = d2["passes"][:2], d2["transports"][:1], op["speed"]
+            b2 = build(d2)
+            try:
+                u2 = [float(rp.usable_cross_section.area) for rp in b2.seq.roll_passes]
+                _call(b2.seq, b2.in_profile, op["mode"], op["speed"], 1.0, u2)
+            finally:
+                for c in b2.cleanup:
+                    c()
+        elif op["op"] == "read":
+            for rp in seq.roll_passes:
+                for path in op["what"]:
+                    _read_path(rp, path)
+        else:
+            raise ValueError(op)
+
+
 def run_real(desc):
     """execute the case; harness errors propagate, exceptions from inside pyroll are returned in o.error"""
     o = Outcome()
@@ -254,35 +506,72 @@ def run_real(desc):
         seq = b.seq
         o.n = len(seq.roll_passes)
         o.error = None
+        o.pre_error = None
         try:
             o.usable = [float(rp.usable_cross_section.area) for rp in seq.roll_passes]
             o.budget = int(seq.max_iteration_count)
-            if desc["mode"] == "b":
-                o.aux = (o.usable[-1] if o.usable else 4e-4) * desc["final_area_factor"]
-                seq.solve_velocities_backward(b.in_profile, desc["speed"], o.aux)
-            else:
-                o.aux = float(b.in_profile.cross_section.area)
-                seq.solve_velocities_forward(b.in_profile, desc["speed"])
+            try:
+                run_history(b, desc, o)
+            except Exception as ex:
+                if not _from_pyroll(ex):
+                    raise
+                o.pre_error = ex
+                raise
+            del b.rec[:]                     # only the call under test is compared with the model
+            prof = b.in_profile if desc.get("reuse_in_profile") else b.make_in_profile()
+            o.aux = _call(seq, prof, desc["mode"], desc["speed"], desc["final_area_factor"], o.usable)
         except Exception as ex:
             if not _from_pyroll(ex):
                 raise
             o.error = ex
+            if desc["mode"] == "b":
+                o.aux = (o.usable[-1] if getattr(o, "usable", None) else 4e-4) * desc["final_area_factor"]
+            else:
+                o.aux = float(b.in_profile.cross_section.area)
         o.written = [r[1] for r in b.rec if r[0] == "v"]       # velocities on the passes before every solve call
         o.areas = [r[1] for r in b.rec if r[0] == "A"]         # out areas after every solve call
         if o.error is None:
             ps = seq.roll_passes
+            # the roll speeds first: nothing else has been read on the rolls since the call returned
+            o.freq = [float(rp.roll.rotational_frequency) for rp in ps]
+            o.wv = []
+            for rp in ps:
+                r = rp.roll
+                wv = float(r.working_velocity)
+                ang = float(r.neutral_angle) if r.has_value("neutral_angle") else float(r.exit_angle)
+                o.wv.append((wv, ang))
             o.v = [float(rp.velocity) for rp in ps]
             o.A = [float(rp.out_profile.cross_section.area) for rp in ps]
             o.v_in = [float(rp.in_profile.velocity) for rp in ps]
             o.A_in = [float(rp.in_profile.cross_section.area) for rp in ps]
             o.v_out = [float(rp.out_profile.velocity) for rp in ps]
+            o.vflux = [float(rp.volume_flux) for rp in ps]
             o.prec = [float(rp.iteration_precision) for rp in ps]
-            o.wv = []
-            for rp in ps:
-                r = rp.roll
-                ang = float(r.neutral_angle) if r.has_value("neutral_angle") else float(r.exit_angle)
-                o.wv.append((float(r.working_velocity), ang))
         return o
+    finally:
+        for c in b.cleanup:
+            c()
+
+
+def run_mill(desc, freqs):
+    """the same mill (same grooves, gaps, spread model, user data), no pass velocity given, every roll turning with the
+    rotational frequency the velocity calculation resulted in; one plain `solve`"""
+    m = Outcome()
+    b = build(desc, roll_speeds=freqs)
+    try:
+        m.error = None
+        try:
+            b.seq.solve(b.make_in_profile())
+        except Exception as ex:
+            if not _from_pyroll(ex):
+                raise
+            m.error = ex
+            return m
+        ps = b.seq.roll_passes
+        m.v = [float(rp.velocity) for rp in ps]
+        m.A = [float(rp.out_profile.cross_section.area) for rp in ps]
+        m.prec = [float(rp.iteration_precision) for rp in ps]
+        return m
     finally:
         for c in b.cleanup:
             c()
@@ -315,6 +604,9 @@ def stop_test(prior, cur):
 def oracle(ctx, desc, o):
     """the property as stated, checked on the state the real call left behind; returns list of (key, what)"""
     bad = []
+    if getattr(o, "pre_error", None) is not None:
+        ctx.count("history-raised:" + type(o.pre_error).__name__)      # the call under test was never reached
+        return bad
     if o.error is not None and o.n >= 2 and desc["spread"]["kind"] in ("none", "fill", "draught"):
         # The areas of this sequence do not depend on the velocities.  If it can be solved with velocities set by hand,
         # the velocity calculation (which only adds positive finite velocities) has to finish on it as well.
@@ -355,9 +647,48 @@ def oracle(ctx, desc, o):
             bad.append(("in-out-flux-differs", f"pass {i}: in velocity*area {o.v_in[i] * o.A_in[i]!r} vs out "
                         f"{o.v[i] * o.A[i]!r} (velocity equivalent off by {abs(o.v_in[i] * o.A_in[i] / o.A[i] - o.v[i])!r} > {tol!r})"))
             break
+    #     The flux a pass reports (`Unit.volume_flux`, pyroll/core/unit/hookimpls.py) is that same flux, in velocity units
+    #     within the loop tolerance + the pass's iteration precision (a value that was read before the call is cached and
+    #     re-evaluated in every solve iteration BEFORE the out cross-section of that iteration, like in_profile.velocity).
+    for i in range(o.n):
+        tol = LOOP_TOL + 3 * o.prec[i] * abs(o.v[i])
+        if not abs(o.vflux[i] / o.A[i] - phi / o.A[i]) <= tol:
+            bad.append(("volume-flux-differs", f"pass {i}: volume_flux {o.vflux[i]!r}, flux of pass {anchor} is {phi!r} "
+                        f"(velocity equivalent off by {abs(o.vflux[i] / o.A[i] - phi / o.A[i])!r} > {tol!r})"))
+            break
     # (3) backward: the last pass runs at exactly the prescribed final speed
     if desc["mode"] == "b" and not o.v[-1] == float(desc["speed"]):
-        bad.append(("backward-final-speed", f"last pass velocity {o.v[-1]!r} != prescribed final speed {desc['speed']!r}"))
+        bad.append(("backward-final-speed", f"last pass velocity {o.v[-1]!r} != prescribed final speed {desc['speed']!r}"
+                    + (f" (history of the sequence object: {desc['pre']!r})" if desc.get("pre") else "")
+                    + (f" (passes constructed with velocities {desc['construct_velocities']!r})" if desc.get("construct_velocities") else "")))
+    # (5) interpretation: the velocities of the passes are the velocities the ROLLS drive them at (an explicit pass velocity
+    #     drives the roll's working velocity).  So the mill set to the roll speeds the calculation resulted in - same
+    #     sequence, no pass velocity given, one plain solve - shows the same picture: every pass at its calculated velocity
+    #     (up to the rounding of velocity -> rotational frequency -> velocity), equal flux, last pass at the final speed.
+    #     The plain solve starts from scratch, so its areas are only as good as the passes' iteration precision.
+    if desc.get("mill") and not bad:
+        m = run_mill(desc, o.freq)
+        d_ = "backward" if desc["mode"] == "b" else "forward"
+        if m.error is not None:
+            ctx.count("mill-raised:" + type(m.error).__name__)
+        else:
+            ctx.count("mill-resimulated")
+            phim = m.v[anchor] * m.A[anchor]
+            for i in range(o.n):
+                tol = LOOP_TOL + 3 * m.prec[i] * abs(m.v[i])
+                if not abs(m.v[i] - phim / m.A[i]) <= tol:
+                    bad.append((f"mill-flux-differs-{d_}", f"mill set to the calculated roll speeds {o.freq!r}: pass {i} runs at "
+                                f"{m.v[i]!r} through out area {m.A[i]!r}, flux of pass {anchor} is {phim!r}; equal flux needs "
+                                f"{phim / m.A[i]!r} (off by {abs(m.v[i] - phim / m.A[i])!r} > {tol!r}); calculated pass velocities {o.v!r}"))
+                    break
+            if desc["mode"] == "b" and not abs(m.v[-1] - desc["speed"]) <= 1e-9 * abs(desc["speed"]):
+                bad.append(("mill-final-speed", f"mill set to the calculated roll speeds {o.freq!r}: last pass runs at {m.v[-1]!r}, "
+                            f"prescribed final speed {desc['speed']!r}"))
+            for i in range(o.n):
+                if not abs(m.v[i] - o.v[i]) <= 1e-9 * abs(o.v[i]):
+                    bad.append(("rolls-do-not-realise-pass-velocity", f"pass {i}: calculated velocity {o.v[i]!r}, but its roll at the "
+                                f"resulting rotational frequency {o.freq[i]!r} drives the pass at {m.v[i]!r}"))
+                    break
     if desc["mode"] == "f":
         # NOT claimed by the property (and not true): the forward calculation keeps v[0] = initial_speed*A_in/usable[0], so the
         # first pass's entry velocity is initial_speed*A_out[0]/usable[0], not the prescribed initial speed (see notes/C19.md)
@@ -445,6 +776,22 @@ def _canon(desc):
     return json.loads(json.dumps(desc, default=float), parse_float=lambda s: round(float(s), 9))
 
 
+def _slice(desc, start, m):
+    """the sub-sequence of passes start .. start+m-1 with everything that is given per pass"""
+    d = dict(desc)
+    cut = lambda xs: xs[start:start + m]
+    d["passes"] = cut(desc["passes"])
+    d["transports"] = desc["transports"][:m - 1]
+    for k in ("pass_extras", "roll_extras", "construct_velocities"):
+        if desc.get(k):
+            d[k] = cut(desc[k])
+    if desc.get("neutral"):
+        d["neutral"] = dict(desc["neutral"], values=cut(desc["neutral"]["values"]))
+    if desc.get("pre"):
+        d["pre"] = [dict(op, values=cut(op["values"])) if op["op"] == "velocities" else op for op in desc["pre"]]
+    return d
+
+
 def shrink(desc, fails):
     """fewer passes while the same key keeps failing"""
     best = desc
@@ -453,9 +800,7 @@ def shrink(desc, fails):
         for start in range(0, n - m + 1):
             if start and desc["family"] != "box":
                 continue                     # later passes are sized for a smaller workpiece
-            d = dict(desc)
-            d["passes"] = desc["passes"][start:start + m]
-            d["transports"] = desc["transports"][:m - 1]
+            d = _slice(desc, start, m)
             try:
                 if fails(d):
                     return d
@@ -472,6 +817,19 @@ def run_case(ctx, desc, lines, pending, origin):
     ctx.count(f"passes:{o.n}")
     ctx.count(f"spread:{desc['spread']['kind']}" + (":core" if desc["spread"].get("where") == "core" else ""))
     ctx.count(f"budget:{desc.get('budget')}")
+    for op in desc.get("pre") or []:
+        ctx.count("history:" + op["op"] + (":" + ("same" if op["mode"] == desc["mode"] else "other") + "-direction" if op["op"] == "calc" else ""))
+    if desc.get("reuse_in_profile"):
+        ctx.count("history:same-in-profile-object")
+    if desc.get("mill"):
+        ctx.count("mill-requested")
+    if desc.get("construct_velocities"):
+        ctx.count("history:constructed-with-velocities")
+    if desc.get("neutral"):
+        ctx.count("neutral-plane:" + desc["neutral"]["kind"])
+    for k in ("pass_extras", "roll_extras"):
+        for nm in sorted({nm for d_ in desc.get(k) or [] for nm in d_}):
+            ctx.count(f"{k}:{nm}")
     if o.error is not None:
         ctx.count("raised:" + type(o.error).__name__)
     else:
@@ -503,17 +861,33 @@ class _Quiet:
         pass
 
 
+def anchored_hooks(ctx):
+    """{lean name: HookImpl} of the anchored hook implementations as the translator reads them from the current source"""
+    hooks = getattr(ctx, "c19_hooks", None)
+    if hooks is None:
+        try:
+            idx = c19_velo.hookimpl_index(sorted({rel for (_, rel, _) in c19_velo.HOOKS}))
+            hooks = {n: idx[(rel, fn)] for (n, rel, fn) in c19_velo.HOOKS if (rel, fn) in idx}
+        except Exception:
+            hooks = {}
+    return hooks
+
+
 def run(ctx):
     import logging
     logging.getLogger("pyroll").setLevel(logging.ERROR)
     lines, pending = [], []
     attempted = succeeded = 0
-    for d in corpus():
+    hooks = anchored_hooks(ctx)
+    pool = extras_pool(hooks)
+    for where in ("pass", "roll"):
+        ctx.count(f"hooks-without-implementation:{where}", len(pool[where]))
+    for d in corpus(pool):
         o = run_case(ctx, d, lines, pending, "corpus")
         attempted += 1
         succeeded += o.error is None or o.n == 0
     for i in range(ctx.budget(90, 1500)):
-        d = gen_desc(ctx.rng)
+        d = gen_desc(ctx.rng, pool=pool)
         o = run_case(ctx, d, lines, pending, "random")
         attempted += 1
         succeeded += o.error is None
@@ -527,17 +901,6 @@ def run(ctx):
         ctx.tie_breaks.append(f"harness: only {succeeded} of {attempted} generated sequences could be solved by the implementation")
     if not ctx.model_available:
         return
-    hooks = getattr(ctx, "c19_hooks", None)
-    if hooks is None:
-        class _C:
-            tie_breaks, notes = [], {}
-        hooks = {}
-        try:
-            from ..translate import gen
-            idx = gen.hookimpl_index(sorted({rel for (_, rel, _) in c19_velo.HOOKS}))
-            hooks = {n: idx[(rel, fn)] for (n, rel, fn) in c19_velo.HOOKS if (rel, fn) in idx}
-        except Exception:
-            hooks = {}
     flines, fexpect = formula_lines(ctx, hooks, ctx.budget(10, 200))
     out = ctx.lean_model(MODEL, lines + flines)
     if len(out) != len(lines) + len(flines):
